@@ -84,7 +84,7 @@ def main(tier, replay=None):
     # of the database is being restored when the process stops; the node is reorganised below / above the
     # rescan cursor and grows while the wallet is down); with 48 histories the quick tier has 40 ordinary
     # ones as before, 7 import-only ones of ~1100 blocks and one of ~3100 blocks (fast-forward of Start)
-    n = 48 if tier == "quick" else 240     # thorough: 225 ordinary + 15 import-only (histories with more than 250 commits: 48 sampled crash points)
+    n = 48 if tier == "quick" else 120     # thorough: 112 ordinary + 8 import-only (every commit a crash point; histories with more than 120 commits: 48 sampled crash points)
 
     if c.escalated:   # a modelled Go function changed since the pin (c.drift): look harder, no verdict from drift alone
 
